@@ -10,3 +10,9 @@ for p in "$@"; do
   (cd ${VERIF_ROOT:-/verif} && VERIF_REPO=$wt ./check $p --tier ${TIER:-quick} 2>&1 | grep -E "VIOLATION|KNOWN|TOOL-ERROR|\[done\]" | head -${HEAD:-3})
 done
 git -C /repo worktree remove --force $wt
+# every scratch path leaves its own build of the crate and of the harness behind in the -alt target directories
+r=${VERIF_ROOT:-/verif}
+for d in $r/harness/target-alt $r/harness_aux/target-alt $r/harness_aux/target-fh-alt; do
+  [ -d $d ] && [ $(du -sm $d | cut -f1) -gt 4000 ] && rm -rf $d
+done
+exit 0
